@@ -2,16 +2,19 @@ use crate::{
     emulator::Emulator,
     error::{SnapshotLoadError, SnapshotSaveError},
     host::{DataRecorder, Host, LoadableAsset, SeekFrom, SeekableAsset},
-    zx::{joy::kempston, mouse::kempston::KempstonMouse, video::colors::ZXColor},
+    zx::{
+        joy::kempston, machine::ZXMachine, mouse::kempston::KempstonMouse,
+        video::colors::ZXColor,
+    },
     Result,
 };
 
+#[cfg(feature = "zlib")]
 use alloc::vec::Vec;
 use alloc::{str::from_utf8, vec};
 #[cfg(feature = "zlib")]
 use miniz_oxide::inflate::decompress_to_vec_zlib_with_limit;
-
-use rustzx_z80::Z80Bus;
+use rustzx_z80::Z80;
 
 const ZXST_MID_128K: u32 = 2;
 
@@ -34,13 +37,22 @@ const ZXST_BLOCK_HEADER_SIZE: usize = 8; // The header for each block
 // Process Creator (CRTR) block
 fn process_crtr_block<H: Host>(_: &mut Emulator<H>, block_data: &[u8]) {
     let crtr_name_bytes = &block_data[0..33];
-    let _ = from_utf8(crtr_name_bytes).unwrap();
+    let _ = from_utf8(crtr_name_bytes);
     let _ = u16::from_le_bytes([block_data[33], block_data[34]]);
     let _ = u16::from_le_bytes([block_data[35], block_data[36]]);
 }
 
 // Process ZXSTZ80REGS (Z80R) block
-fn process_z80r_block<H: Host>(emulator: &mut Emulator<H>, block_data: &[u8]) {
+fn process_z80r_block<H: Host>(emulator: &mut Emulator<H>, block_data: &[u8]) -> Result<()> {
+    // chIM
+    if block_data[28] > 2 {
+        return Err(SnapshotLoadError::InvalidSZXFile.into());
+    }
+
+    // CPU state which is not stored in the snapshot (e.g. pending prefix)
+    // should not be inherited from the previously running program
+    emulator.cpu = Z80::default();
+
     // AF
     emulator
         .cpu
@@ -166,15 +178,17 @@ fn process_z80r_block<H: Host>(emulator: &mut Emulator<H>, block_data: &[u8]) {
         .cpu
         .regs
         .set_mem_ptr(u16::from_le_bytes([block_data[35], block_data[36]]));
+
+    Ok(())
 }
 
 // Process ZXSTSPECREGS (SPCR) block
 fn process_spcr_block<H: Host>(emulator: &mut Emulator<H>, machine_id: u32, block_data: &[u8]) {
     // ch7ffd
     if machine_id < ZXST_MID_128K {
-        emulator.controller.write_7ffd(0); // Always 0 for 16k and 48k
+        emulator.controller.load_7ffd(0); // Always 0 for 16k and 48k
     } else {
-        emulator.controller.write_7ffd(block_data[1]);
+        emulator.controller.load_7ffd(block_data[1]);
     }
 
     // ch1ffd
@@ -186,12 +200,19 @@ fn process_spcr_block<H: Host>(emulator: &mut Emulator<H>, machine_id: u32, bloc
     // Only 128 and 48k models supported currently. Skipping block_data[2] (union)
 
     // chFe
-    emulator.controller.write_io(0x0fe, block_data[3]);
+    // Restore last value written to the ULA port without spending emulated time, so
+    // snapshot state does not depend on the order of the blocks
+    #[cfg(feature = "sound")]
+    {
+        let mic = block_data[3] & 0x08 != 0;
+        let ear = block_data[3] & 0x10 != 0;
+        emulator.controller.mixer.beeper.change_state(ear, mic);
+    }
 
     // chBorder
-    // Setting the border after the out to 0xfe above because that too
-    // sets the border color.
-    emulator.controller.border_color = ZXColor::from_bits(block_data[0]);
+    emulator
+        .controller
+        .set_border_color(0, ZXColor::from_bits(block_data[0] & 0x07));
 }
 
 // Process ZXSTAYBLOCK (AY00)
@@ -272,6 +293,14 @@ fn process_ramp_block<H: Host>(
         };
     }
 
+    let pages_count = match emulator.settings.machine {
+        ZXMachine::Sinclair48K => 3,
+        ZXMachine::Sinclair128K => 8,
+    };
+    if page_num >= pages_count {
+        return Err(SnapshotLoadError::InvalidSZXFile.into());
+    }
+
     let page_data = emulator.controller.memory.ram_page_data_mut(page_num);
 
     if flags & ZXSTRF_COMPRESSED != 0 {
@@ -283,16 +312,20 @@ fn process_ramp_block<H: Host>(
             let compressed_data: Vec<u8> = block_data[3..].to_vec();
             match decompress_zlib_stream(&compressed_data) {
                 Ok(data) => {
-                    return {
-                        page_data.copy_from_slice(&data[..page_data.len()]);
-                        Ok(())
+                    if data.len() < page_data.len() {
+                        return Err(SnapshotLoadError::InvalidSZXFile.into());
                     }
+                    page_data.copy_from_slice(&data[..page_data.len()]);
+                    return Ok(());
                 }
                 Err(_) => return Err(SnapshotLoadError::InvalidSZXFile.into()),
             }
         }
     } else {
-        let uncompressed_data: Vec<u8> = block_data[3..].to_vec();
+        let uncompressed_data = &block_data[3..];
+        if uncompressed_data.len() < page_data.len() {
+            return Err(SnapshotLoadError::InvalidSZXFile.into());
+        }
         page_data.copy_from_slice(&uncompressed_data[..page_data.len()]);
     }
 
@@ -315,7 +348,7 @@ where
     H: Host,
     A: LoadableAsset + SeekableAsset,
 {
-    let _ = asset.seek(SeekFrom::End(0))?;
+    let file_size = asset.seek(SeekFrom::End(0))?;
     let mut cursor_pos = 0;
     asset.seek(SeekFrom::Start(0))?;
 
@@ -341,6 +374,11 @@ where
     if machine_id > ZXST_MID_128K {
         return Err(SnapshotLoadError::MachineNotSupported.into());
     }
+    // Snapshot can be loaded only to the machine of the same model
+    let is_128k_snapshot = machine_id == ZXST_MID_128K;
+    if is_128k_snapshot != (emulator.settings.machine == ZXMachine::Sinclair128K) {
+        return Err(SnapshotLoadError::MachineNotSupported.into());
+    }
 
     // ZXST Block Header
     asset.seek(SeekFrom::Start(cursor_pos))?;
@@ -358,8 +396,16 @@ where
             block_header[2],
             block_header[3],
         ];
-        let id_str = from_utf8(id_bytes).unwrap().to_uppercase();
+        let id_str = match from_utf8(id_bytes) {
+            Ok(id) => id.to_uppercase(),
+            Err(_) => return Err(SnapshotLoadError::InvalidSZXFile.into()),
+        };
         cursor_pos += ZXST_BLOCK_HEADER_SIZE;
+
+        // Block can't be bigger than the rest of the file
+        if size as usize > file_size.saturating_sub(cursor_pos) {
+            return Err(SnapshotLoadError::InvalidSZXFile.into());
+        }
 
         // ZXST Block Data
         asset.seek(SeekFrom::Start(cursor_pos))?;
@@ -369,12 +415,26 @@ where
             return Err(SnapshotLoadError::InvalidSZXFile.into());
         }
 
+        // Minimal size of the block data which is required by the block parser
+        let min_block_size = match id_str.as_str() {
+            "CRTR" | "Z80R" => 37,
+            "SPCR" => 4,
+            "AY\0\0" => 18,
+            "KEYB" => 5,
+            "AMXM" => 1,
+            "RAMP" => 3,
+            _ => 0,
+        };
+        if block_data.len() < min_block_size {
+            return Err(SnapshotLoadError::InvalidSZXFile.into());
+        }
+
         match id_str.as_str() {
             "CRTR" => {
                 process_crtr_block(emulator, &block_data);
             }
             "Z80R" => {
-                process_z80r_block(emulator, &block_data);
+                process_z80r_block(emulator, &block_data)?;
             }
             "SPCR" => {
                 process_spcr_block(emulator, machine_id, &block_data);
